@@ -91,13 +91,51 @@ func init() {
 		}
 		return fmt.Sprint(len(rc.calls))
 	}
+	// ka.write <k> <n>: the real WriteLoop forwards n queued packets to a client (keepalive k) that sends nothing;
+	// answer: how often the connection's deadline was set meanwhile
+	runners["ka.write"] = func(_ *state, a []string) string {
+		k := uint16(atoi(a[0]))
+		n := atoi(a[1])
+		s := newServer()
+		c1, c2 := net.Pipe()
+		rc := &recConn{Conn: c1}
+		cl := s.NewClient(rc, "t", "kaw", false)
+		cl.State.Keepalive = k
+		go func() { // the peer reads whatever arrives and never writes
+			buf := make([]byte, 4096)
+			for {
+				if _, err := c2.Read(buf); err != nil {
+					return
+				}
+			}
+		}()
+		go cl.WriteLoop()
+		for i := 0; i < n; i++ {
+			pk := packets.Packet{FixedHeader: packets.FixedHeader{Type: packets.Publish}, TopicName: "t", Payload: []byte{byte(i)}}
+			if !cl.VerifEnqueue(pk) {
+				return "full"
+			}
+		}
+		for i := 0; i < 200000 && cl.VerifOutboundQty() > 0; i++ {
+			time.Sleep(10 * time.Microsecond)
+		}
+		time.Sleep(2 * time.Millisecond)
+		rc.mu.Lock()
+		calls := len(rc.calls)
+		rc.mu.Unlock()
+		cl.Stop(nil)
+		c2.Close()
+		return fmt.Sprint(calls)
+	}
 	suites["keepalive"] = suite{gen: func(r *rand.Rand, n int, emit func(string)) {
 		for _, k := range []int{0, 1, 2, 3, 4, 5, 7, 43690, 43691, 50000, 65535} {
 			emit(fmt.Sprintf("ka.dl %d", k))
 		}
 		for i := 0; i < n; i++ {
-			if r.Intn(5) == 0 {
+			if x := r.Intn(10); x < 2 {
 				emit(fmt.Sprintf("ka.loop %d %d", r.Intn(4), r.Intn(6)))
+			} else if x == 2 {
+				emit(fmt.Sprintf("ka.write %d %d", 1+r.Intn(4), 1+r.Intn(6)))
 			} else {
 				emit(fmt.Sprintf("ka.dl %d", r.Intn(65536)>>uint(r.Intn(16))))
 			}
